@@ -11,6 +11,7 @@ import (
 	"bytes"
 	"context"
 	"crypto/tls"
+	"encoding/base64"
 	"encoding/xml"
 	"fmt"
 	"io"
@@ -31,6 +32,7 @@ import (
 
 	"mellium.im/xmpp/verifharness/bufconn"
 	"mellium.im/xmpp/verifharness/core"
+	"mellium.im/xmpp/verifharness/saslpeer"
 	"mellium.im/xmpp/verifharness/tlspeer"
 )
 
@@ -130,9 +132,13 @@ type scenario struct {
 	// Info: the client also configures an informational feature (no Negotiate)
 	// whose Parse stores data; the clear-text "others" list carries it with
 	// v='clear'.  TLSInfo: the first protected list carries it with v='tls'.
-	Info    bool  `json:"info_feature,omitempty"`
-	TLSInfo bool  `json:"tls_info,omitempty"`
-	Order   []int `json:"feature_order"`
+	// Mechs: the client's SASL mechanisms and what the peer advertises: "" or
+	// "plain" PLAIN only, "scram" SCRAM-SHA-256 and SCRAM-SHA-1 only (nothing
+	// that puts the password on the wire), "both" SCRAM-SHA-256 then PLAIN.
+	Mechs   string `json:"mechs,omitempty"`
+	Info    bool   `json:"info_feature,omitempty"`
+	TLSInfo bool   `json:"tls_info,omitempty"`
+	Order   []int  `json:"feature_order"`
 }
 
 func genScenario(r *rand.Rand) scenario {
@@ -173,6 +179,7 @@ func genScenario(r *rand.Rand) scenario {
 	case 3:
 		sc.ClearTo = "foreign-domain"
 	}
+	sc.Mechs = []string{"plain", "plain", "scram", "scram", "both"}[r.Intn(5)]
 	sc.Info = r.Intn(5) < 3
 	sc.TLSInfo = sc.Info && r.Intn(2) == 0
 	if r.Intn(7) == 0 {
@@ -207,14 +214,25 @@ func tlsHeader(sc scenario, id string) string {
 	return header(sc, attrs+" from='"+locationStr(sc)+"' to='"+originStr(sc)+"'")
 }
 
-func mechsXML() string {
-	return "<mechanisms xmlns='" + nsSASL + "'><mechanism>PLAIN</mechanism></mechanisms>"
+func mechsXML(sc scenario) string {
+	names := []string{"PLAIN"}
+	switch sc.Mechs {
+	case "scram":
+		names = []string{"SCRAM-SHA-1", "SCRAM-SHA-256"}
+	case "both":
+		names = []string{"SCRAM-SHA-1", "SCRAM-SHA-256", "PLAIN"}
+	}
+	out := "<mechanisms xmlns='" + nsSASL + "'>"
+	for _, n := range names {
+		out += "<mechanism>" + n + "</mechanism>"
+	}
+	return out + "</mechanisms>"
 }
 
 func advXML(sc scenario) string {
 	req := "<starttls xmlns='" + nsTLS + "'><required/></starttls>"
 	opt := "<starttls xmlns='" + nsTLS + "'/>"
-	others := mechsXML() + "<bind xmlns='" + nsBind + "'/><unknown xmlns='urn:verif:unknown'/><inst xmlns='" + nsInst + "'/><info xmlns='" + nsInfo + "' v='clear'/>"
+	others := mechsXML(sc) + "<bind xmlns='" + nsBind + "'/><unknown xmlns='urn:verif:unknown'/><inst xmlns='" + nsInst + "'/><info xmlns='" + nsInfo + "' v='clear'/>"
 	var in string
 	switch sc.Adv {
 	case "tls-required":
@@ -226,9 +244,9 @@ func advXML(sc scenario) string {
 	case "tls-optional+others":
 		in = opt + others
 	case "mechs-only":
-		in = mechsXML()
+		in = mechsXML(sc)
 	case "mechs+bind":
-		in = mechsXML() + "<bind xmlns='" + nsBind + "'/>"
+		in = mechsXML(sc) + "<bind xmlns='" + nsBind + "'/>"
 	case "empty":
 		return "<stream:features/>"
 	case "unknown-only":
@@ -236,7 +254,7 @@ func advXML(sc scenario) string {
 	case "inst-only":
 		in = "<inst xmlns='" + nsInst + "'/>"
 	case "tls-wrongns":
-		in = "<starttls xmlns='urn:verif:not-tls'><required/></starttls>" + mechsXML()
+		in = "<starttls xmlns='urn:verif:not-tls'><required/></starttls>" + mechsXML(sc)
 	default:
 		panic("c02: unknown advertisement " + sc.Adv)
 	}
@@ -322,6 +340,7 @@ type peerData struct {
 	ReadyPoint  bool     `json:"ready_point"`
 	Pipelined   bool     `json:"pipelined_sent"`
 	TLSHeaders  int      `json:"tls_headers_sent"`
+	SCRAMDone   bool     `json:"scram_completed_in_tls,omitempty"`
 	AfterWS     []string `json:"after_whitespace,omitempty"` // what the client sent in clear after a white-space-led answer
 }
 
@@ -461,7 +480,7 @@ func runPeer(conn net.Conn, sc scenario, rec *peerRec) {
 		out(conn, "<success xmlns='"+nsSASL+"'/>")
 		return
 	case "features-again":
-		out(conn, "<stream:features>"+mechsXML()+"</stream:features>")
+		out(conn, "<stream:features>"+mechsXML(sc)+"</stream:features>")
 		return
 	case "stream-error":
 		out(conn, "<stream:error><policy-violation xmlns='urn:ietf:params:xml:ns:xmpp-streams'/></stream:error>")
@@ -477,7 +496,7 @@ func runPeer(conn net.Conn, sc scenario, rec *peerRec) {
 	case "ws-features":
 		// white space, then a features list in clear text that invites the client
 		// to authenticate and bind; whatever the client answers is on the record
-		out(conn, "\n<stream:features>"+mechsXML()+"<bind xmlns='"+nsBind+"'/></stream:features>")
+		out(conn, "\n<stream:features>"+mechsXML(sc)+"<bind xmlns='"+nsBind+"'/></stream:features>")
 		if ev, _ := nextEvent(d); ev != "" {
 			note(func() { rec.AfterWS = append(rec.AfterWS, ev) })
 		}
@@ -539,15 +558,39 @@ func runPeer(conn net.Conn, sc scenario, rec *peerRec) {
 	if sc.TLSInfo {
 		inst += "<info xmlns='" + nsInfo + "' v='tls'/>"
 	}
-	out(tc, tlsHeader(sc, "t1")+"<stream:features>"+inst+mechsXML()+"</stream:features>")
-	if ev, _ := tev(); ev != "{"+nsSASL+"}auth" {
+	out(tc, tlsHeader(sc, "t1")+"<stream:features>"+inst+mechsXML(sc)+"</stream:features>")
+	ev, authEl := tev()
+	if ev != "{"+nsSASL+"}auth" {
 		return
 	}
 	if sc.InTLS == "auth-failure" {
 		out(tc, "<failure xmlns='"+nsSASL+"'><not-authorized/></failure>")
 		return
 	}
-	out(tc, "<success xmlns='"+nsSASL+"'/>")
+	if m := authEl.attr("mechanism"); strings.HasPrefix(m, "SCRAM-") {
+		// a legitimate SCRAM exchange, computed with mellium.im/sasl's server
+		srv := saslpeer.NewServer(m, user, "secret", []byte("c02-salt"), 8, "", nil)
+		first, _ := base64.StdEncoding.DecodeString(strings.TrimSpace(authEl.Inner))
+		more, resp, err := srv.Step(first)
+		if err != nil || !more {
+			out(tc, "<failure xmlns='"+nsSASL+"'><not-authorized/></failure>")
+			return
+		}
+		out(tc, "<challenge xmlns='"+nsSASL+"'>"+saslpeer.B64(resp)+"</challenge>")
+		ev, respEl := tev()
+		if ev != "{"+nsSASL+"}response" {
+			return
+		}
+		final, _ := base64.StdEncoding.DecodeString(strings.TrimSpace(respEl.Inner))
+		if _, resp, err = srv.Step(final); err != nil {
+			out(tc, "<failure xmlns='"+nsSASL+"'><not-authorized/></failure>")
+			return
+		}
+		note(func() { rec.SCRAMDone = true })
+		out(tc, "<success xmlns='"+nsSASL+"'>"+saslpeer.B64(resp)+"</success>")
+	} else {
+		out(tc, "<success xmlns='"+nsSASL+"'/>")
+	}
 	if ev, _ := tev(); ev != "hdr" {
 		return
 	}
@@ -858,7 +901,14 @@ func runSession(c *core.Case, sc scenario, stls xmpp.StreamFeature, sh *shared) 
 
 // buildFeatures makes the client's feature list for sc in its PRNG order.
 func buildFeatures(sc scenario, stls xmpp.StreamFeature, sink func(instCall)) []xmpp.StreamFeature {
-	all := []xmpp.StreamFeature{stls, xmpp.SASL("", "secret", sasl.Plain), xmpp.BindResource(), instFeature(sink)}
+	mechs := []sasl.Mechanism{sasl.Plain}
+	switch sc.Mechs {
+	case "scram":
+		mechs = []sasl.Mechanism{sasl.ScramSha256, sasl.ScramSha1}
+	case "both":
+		mechs = []sasl.Mechanism{sasl.ScramSha256, sasl.Plain}
+	}
+	all := []xmpp.StreamFeature{stls, xmpp.SASL("", "secret", mechs...), xmpp.BindResource(), instFeature(sink)}
 	var feats []xmpp.StreamFeature
 	for _, i := range sc.Order {
 		if i == 3 && !sc.Inst {
@@ -1121,6 +1171,9 @@ func judge(c *core.Case, sc scenario, res result, prior []string) {
 		c.Count("handshakes_completed", 1)
 		c.Count("handshakes_completed_cfg_"+sc.Cfg, 1)
 	}
+	if res.Peer.SCRAMDone {
+		c.Count("in_tls_scram_exchanges_completed", 1)
+	}
 	if res.Peer.Pipelined {
 		c.Count("pipelined_plaintext_cases", 1)
 		if res.Peer.HandshakeOK {
@@ -1278,13 +1331,29 @@ type groupSample struct {
 }
 
 // teeGroup runs one peer script without the tee and with 1–3 tee modes.
-func teeGroup(c *core.Case, base scenario, modes []string) {
+func teeGroup(c *core.Case, base scenario, modes []string) { teeGroupN(c, base, modes, 0) }
+
+// teeGroupN also repeats the tee-less session: whatever the library iterates
+// over in an unspecified order (the features usable on one list), the outcome
+// of one peer script must not depend on it.
+func teeGroupN(c *core.Case, base scenario, modes []string, repeats int) {
 	gs := &groupSample{Kind: "tee-comparison"}
 	c.Sample(gs)
 	var ref result
+	modes = append([]string{}, modes...)
+	for i := 0; i < repeats; i++ {
+		modes = append(modes, "again")
+	}
 	for i, m := range append([]string{"off"}, modes...) {
 		sc := base
 		sc.Tee = m
+		again := m == "again"
+		if again {
+			sc.Tee = "off"
+		}
+		if strings.HasSuffix(sc.Adv, "+others") {
+			c.Count("sessions_with_several_features_on_one_clear_list_mechs_"+mechsKind(sc), 1)
+		}
 		gs.Scenarios = append(gs.Scenarios, sc)
 		res := runSession(c, sc, startTLSFor(sc), nil)
 		gs.Results = append(gs.Results, res)
@@ -1297,6 +1366,16 @@ func teeGroup(c *core.Case, base scenario, modes []string) {
 		if res.Wedged || ref.Wedged {
 			continue
 		}
+		if again {
+			c.Count("repeated_sessions_compared", 1)
+			if res.Clear != ref.Clear {
+				c.Violate("order:clear-bytes", "the same configuration against the same peer script wrote %q in clear text in one session and %q in another (scenario %+v)", res.Clear, ref.Clear, base)
+			}
+			if res.outcome() != ref.outcome() {
+				c.Violate("order:outcome", "the same configuration against the same peer script ended {%s} in one session and {%s} in another (scenario %+v)", res.outcome(), ref.outcome(), base)
+			}
+			continue
+		}
 		c.Count("tee_pairs_compared", 1)
 		if res.Clear != ref.Clear {
 			c.Violate("tee:clear-bytes", "same peer script, tee=%s: clear-text bytes %q; without tee %q (scenario %+v)", m, res.Clear, ref.Clear, base)
@@ -1305,6 +1384,13 @@ func teeGroup(c *core.Case, base scenario, modes []string) {
 			c.Violate("tee:outcome", "same peer script, tee=%s: outcome {%s} err=%q; without tee {%s} err=%q (scenario %+v)", m, res.outcome(), res.Err, ref.outcome(), ref.Err, base)
 		}
 	}
+}
+
+func mechsKind(sc scenario) string {
+	if sc.Mechs == "" {
+		return "plain"
+	}
+	return sc.Mechs
 }
 
 func outcomeClass(r result) string {
@@ -1494,8 +1580,26 @@ func without(l []string, x string) []string {
 	return out
 }
 
+// fixedCases run at the last case indexes of every tier so that the counters
+// they feed do not depend on the PRNG: lists on which STARTTLS and SASL
+// mechanisms are advertised together, to clients whose mechanism lists differ,
+// negotiated eight times each.
+var fixedCases = []scenario{
+	{Adv: "tls-required+others", Mechs: "scram"},
+	{Adv: "tls-optional+others", Mechs: "scram"},
+	{Adv: "tls-required+others", Mechs: "both"},
+	{Adv: "tls-required+others", Mechs: "plain"},
+}
+
 func run(c *core.Case) {
 	r := c.Rand
+	if j := c.Prop.Cases(c.Tier) - 1 - c.Index; j >= 0 && j < len(fixedCases) {
+		sc := fixedCases[j]
+		sc.Answer, sc.InTLS, sc.Cfg, sc.Domain, sc.Order, sc.TLSHdr, sc.CfgFunc = "proceed-tls", "full", "explicit", domains[j], []int{0, 1, 2, 3}, "complete", "static"
+		c.Count("fixed_several_features_groups_mechs_"+mechsKind(sc), 1)
+		teeGroupN(c, sc, []string{"both"}, 7)
+		return
+	}
 	switch k := r.Intn(21); {
 	case k < 12:
 		base := genScenario(r)
@@ -1503,7 +1607,11 @@ func run(c *core.Case) {
 		if r.Intn(3) == 0 {
 			modes = []string{"in", "out", "both"}
 		}
-		teeGroup(c, base, modes)
+		reps := 0
+		if strings.HasSuffix(base.Adv, "+others") {
+			reps = 3
+		}
+		teeGroupN(c, base, modes, reps)
 	case k < 15:
 		reuseGroup(c, r, false)
 	case k < 17:
@@ -1547,6 +1655,8 @@ func Prop() *core.Prop {
 		"slice_reuse_first_session_ready_over_tls", "slice_reuse_later_session_forced_starttls",
 		"slice_reuse_groups_ws_framed", "ws_framed_sessions_negotiator", "ws_framed_sessions_newsession", "ws_framed_forced_starttls",
 		"real_ws_sessions_origin_http", "real_ws_sessions_origin_https", "real_ws_starttls_requested_origin_https", "real_ws_origin_pairs_compared",
+		"fixed_several_features_groups_mechs_scram", "fixed_several_features_groups_mechs_both", "fixed_several_features_groups_mechs_plain",
+		"sessions_with_several_features_on_one_clear_list_mechs_scram", "repeated_sessions_compared", "in_tls_scram_exchanges_completed",
 		"feature_queries_after_handshake", "handshakes_after_clear_only_features", "protected_feature_data_seen",
 		"other_location_sni_checked_c2s", "other_location_sni_checked_s2s",
 		"clear_to_omitted", "clear_to_foreign-full", "clear_to_foreign-bare", "clear_to_foreign-domain", "clear_to_foreign_stopped_negotiation")
